@@ -13,8 +13,8 @@ from pandapower.pf.runpp_3ph import runpp_3ph
 from pandapower import auxiliary as aux
 from pandapower.results_branch import _get_line_results_3ph
 
-RULE = ("(a) 120 complex triples through sequence_to_phase/phase_to_sequence, 60 (S012,V012) arrays incl. zero voltages "
-        "through SVabc_from_SV012; (b) 40 white-box calls of _get_line_results_3ph with chosen sequence quantities; "
+RULE = ("(a) 50 complex triples through sequence_to_phase/phase_to_sequence, 25 (S012,V012) arrays incl. zero voltages "
+        "through SVabc_from_SV012; (b) 8 white-box calls of _get_line_results_3ph with chosen sequence quantities; "
         "(c) generated nets (3-6 MV buses, lines with zero-sequence data, 0-1 transformer with vector group Dyn/YNyn/Yzn, "
         "symmetric loads/sgens with scaling and out-of-service rows; in half of the cases additional asymmetric loads/sgens): "
         "symmetric nets are compared with runpp, asymmetric ones are checked for per-phase sums and per-phase nodal balance; "
@@ -63,7 +63,7 @@ def rnd_c(rng, zero_p=0.0):
 # ------------------------------------------------------------------ (a) transformations
 def _transform_cases(ctx, rng):
     jobs = []
-    for k in range(ctx.n(80, 1200)):
+    for k in range(ctx.n(40, 1200)):
         x = [rnd_c(rng, 0.15) for _ in range(3)]
         if rng.random() < 0.25:
             x[0] = 0j
@@ -75,7 +75,7 @@ def _transform_cases(ctx, rng):
         ctx.case(d, nontrivial=True, sample={"input": d, "sequence_to_phase": [[z.real, z.imag] for z in s2p]} if k < 1 else None)
         jobs.append(("OL [run_s2p %s; run_p2s %s]" % (C3(x), C3(x)), ("tr", s2p, p2s), d))
         ctx.count("transform_cases")
-    for k in range(ctx.n(40, 600)):
+    for k in range(ctx.n(20, 600)):
         n = rng.randint(1, 3)
         S = np.array([[rnd_c(rng, 0.1) for _ in range(n)] for _ in range(3)], dtype=complex)
         V = np.array([[rnd_c(rng, 0.2) for _ in range(n)] for _ in range(3)], dtype=complex)
@@ -418,14 +418,14 @@ def run(ctx):
             jobs.append(j)
             kinds.append("e")
             cases.append(case)
-        if writer_done < ctx.n(12, 100):
+        if writer_done < ctx.n(4, 100):
             lj = _line_writer_jobs(ctx, rng, n3, 1)
             writer_done += 1
             for j in lj:
                 jobs.append(j)
                 kinds.append("l")
                 cases.append(None)
-    model = ctx.coq_eval("c11", "Base.QN Base.QC Base.C11K C11.Model", [j[0] for j in jobs], shard=60, timeout=280)
+    model = ctx.coq_eval("c11", "Base.QN Base.QC Base.C11K C11.Model", [j[0] for j in jobs], shard=45, timeout=900)
     for (term, obs, d), kd, m, case in zip(jobs, kinds, model, cases):
         if kd == "t":
             _cmp_transform(ctx, m, obs, d)
